@@ -533,6 +533,17 @@ def _type_text(t, ind, ctx):
         return 'BOOLEAN'
     if k == 'null':
         return 'NULL'
+    if k == 'int' and t.get('serial') and ctx is not None:
+        # serial constraint: P ::= INTEGER (lo..hi) ;  use  P (lo2..hi2, ...)  -- the parent's range still applies
+        body = 'INTEGER (%d..%d)' % (t['lo'], t['hi'])
+        if body in ctx.by_text:
+            name = ctx.by_text[body]
+        else:
+            name = ctx.fresh('P')
+            ctx.by_text[body] = name
+            ctx.defs.append('%s ::= %s' % (name, body))
+        ctx.flags.add('serial-constraint')
+        return '%s (%d..%d, ...)' % ((name,) + tuple(t['serial']))
     if k == 'int':
         if not t['con']:
             return 'INTEGER'
@@ -635,7 +646,7 @@ class Unmodelled(Exception):
 def is_modelled(t):
     """is the type inside the universe of the Lean models (Schema.lean)"""
     k = t['k']
-    if k in ('real', 'oid', 'set', 'setof'):
+    if k in ('real', 'oid', 'set', 'setof') or t.get('serial'):
         return False
     if k == 'seqof':
         return is_modelled(t['elem'])
@@ -802,6 +813,75 @@ def features(t, acc=None):
         for _, at in t['root'] + (t['ext'] or []):
             features(at, acc)
     return acc
+
+
+def boundary_cases(rng):
+    """Deterministic-shape cases at the thresholds the codecs branch on (run by every codec property in addition to
+    the random ones): numbers of extension additions around 7/8/9, 16, 63/64/65; range widths 1..2^64; sizes and
+    lengths around 127/128, 255/256 and the 16K fragmentation boundary; CHOICE / ENUMERATED with 1, 2, 3 and many items."""
+    out = []
+
+    def intt(lo, hi, ext=False):
+        return {'k': 'int', 'lo': lo, 'hi': hi, 'ext': ext, 'con': True}
+    for n in (1, 7, 8, 9, 16, 17, 63, 64, 65):
+        ext = [{'name': 'x%d' % i, 't': ({'k': 'bool'} if i % 3 else intt(0, 255)), 'opt': True, 'default': None} for i in range(n)]
+        t = {'k': 'seq', 'root': [{'name': 'a', 't': {'k': 'bool'}, 'opt': False, 'default': None}], 'ext': ext}
+        vals = []
+        for pick in ([0], [n - 1], [0, n - 1], list(range(n)), [rng.randrange(n) for _ in range(3)]):
+            v = {'a': True}
+            for i in set(pick):
+                v['x%d' % i] = (i % 2 == 0) if i % 3 else (i * 7) % 256
+            vals.append(v)
+        vals.append({'a': False})
+        out.append((t, vals))
+        # the same sequence nested as an addition of another sequence, followed by more data
+        outer = {'k': 'seq', 'root': [{'name': 'h', 't': intt(0, 7), 'opt': False, 'default': None}],
+                 'ext': [{'name': 'n', 't': t, 'opt': True, 'default': None}, {'name': 'tail', 't': intt(0, 65535), 'opt': True, 'default': None}]}
+        out.append((outer, [{'h': 5, 'n': vals[0], 'tail': 4660}, {'h': 1, 'n': vals[3]}, {'h': 0, 'tail': 1}]))
+    for w in RANGE_WIDTHS:
+        for lo in (0, -1, 5, -2 ** 31):
+            t = intt(lo, lo + w - 1)
+            out.append((t, [lo, lo + w - 1, lo + (w - 1) // 2]))
+            out.append((intt(lo, lo + w - 1, True), [lo, lo + w - 1, lo - 1, lo + w, lo + w + 70000]))
+    for kind in ('octs', 'bits'):
+        for size in (None, (0, 127, False), (0, 128, False), (1, 255, False), (0, 256, False), (3, 3, False), (0, 65535, False), (0, 65536, False), (1, 4, True), (17, 17, False)):
+            t = {'k': kind, 'size': size}
+            lens = [l for l in (0, 1, 3, 4, 17, 127, 128, 129, 255, 256, 16383, 16384, 16385) if size is None or (size[0] <= l <= (size[1] if size[1] is not None else l))][:7]
+            vals = []
+            for l in lens:
+                if kind == 'octs':
+                    vals.append(bytes((i * 37 + l) % 256 for i in range(l)))
+                else:
+                    nb = (l + 7) // 8
+                    data = bytearray((i * 53 + 1) % 256 for i in range(nb))
+                    if l % 8 and nb:
+                        data[-1] &= (0xff << (8 - l % 8)) & 0xff
+                    vals.append((bytes(data), l))
+            if vals:
+                out.append((t, vals))
+    for n in (1, 2, 3, 4, 5, 8, 9, 16, 17):
+        root = [('e%d' % i, i * 3 - 2) for i in range(n)]
+        out.append(({'k': 'enum', 'root': root, 'ext': None}, [root[0][0], root[-1][0]]))
+        out.append(({'k': 'enum', 'root': root, 'ext': [('z%d' % i, 100 + i) for i in range(n)]}, [root[-1][0], 'z0', 'z%d' % (n - 1)]))
+        alts = [('c%d' % i, ({'k': 'bool'} if i % 2 else intt(0, 3))) for i in range(n)]
+        cv = lambda name, ty: (name, True if ty['k'] == 'bool' else 2)
+        out.append(({'k': 'choice', 'root': alts, 'ext': None}, [cv(*alts[0]), cv(*alts[-1])]))
+        out.append(({'k': 'choice', 'root': alts, 'ext': [('d%d' % i, {'k': 'octs', 'size': None}) for i in range(2)]},
+                    [cv(*alts[-1]), ('d0', b''), ('d1', b'\x01' * 130)]))
+    for kind in ('IA5String', 'NumericString', 'UTF8String', 'VisibleString', 'PrintableString'):
+        for size in (None, (0, 2, False), (1, 1, False), (2, 2, False), (0, 127, False), (5, 5, False)):
+            t = {'k': 'str', 'kind': kind, 'size': size}
+            a = ALPHABETS[kind]
+            lens = [l for l in (0, 1, 2, 5, 127, 128) if size is None or size[0] <= l <= size[1]][:4]
+            if lens:
+                out.append((t, [''.join(a[(i * 7 + l) % len(a)] for i in range(l)) for l in lens]))
+    for size in (None, (0, 3, False), (2, 2, False), (1, 2, True)):
+        for elem in ({'k': 'bool'}, {'k': 'null'}, intt(0, 7)):
+            t = {'k': 'seqof', 'elem': elem, 'size': size}
+            mk = lambda i: (i % 2 == 0) if elem['k'] == 'bool' else (None if elem['k'] == 'null' else i % 8)
+            lens = [l for l in (0, 1, 2, 3, 5, 1362, 16384) if size is None or size[2] or size[0] <= l <= size[1]][:5]
+            out.append((t, [[mk(i) for i in range(l)] for l in lens]))
+    return out
 
 
 def gen_module_text(rng):
